@@ -57,8 +57,7 @@ def matrixVal (b : BlockDef) (sz : String) (blocks : List BlockDef) (raws : List
       match blocks.find? (·.marker = sz), rawOf raws sz with
       | some sb, some sr => some (rowsOf sb 81 sr).length
       | _, _ => Option.none
-    if sizeRows.isNone ∧ lines.isEmpty then Option.none     -- `max([])`
-    else (matrixOf (triOf lu) sizeRows lines).map fun M =>
+    (matrixOf (triOf lu) sizeRows lines).map fun M =>
       .dict [("matrix", .mat M), ("type", .cell (.str typ))]
 
 /-- `self.data` of a parser that only uses the factory parsers -/
